@@ -164,8 +164,10 @@ package satisfaction
 
 //@ func (*Satisfaction).Evaluate
 //@   property C13 C14 C01 C09
+//@   fnparam .generator pure
 //@   requires [parameters] typeis(dmp.MethodParameters, SatisfactionParameters)
 //@   requires [distinct_alternatives] model.distinctAltIds(dmp.ConsideredAlternatives)
+//@   returnhint [generator_seeded_with_the_requests_seed] generator == appfn(s.generator, params.RandomSeed)
 //@   returnhint [level_source_named_in_the_request] len(params.Function) > 0 && exists k int :: 0 <= k && k < len(s.functions) && satisfaction_levels.sourceName(s.functions[k]) == params.Function
 //@             && satisfaction_levels.madeBy(satisfactionLevels, s.functions[k]) && forall j int :: 0 <= j && j < k ==> satisfaction_levels.sourceName(s.functions[j]) != params.Function
 //@   returnhint [accepted_first_then_the_leftovers] len(result) == 1 + len(considered) && 0 <= resultInsertIndex && resultInsertIndex + len(leftToChoice) == len(result)
